@@ -61,6 +61,16 @@ type Case struct {
 	// WrapCtx: every application handler that runs stores a value of its own in the connection's
 	// context (SetContext with a context derived from Context()), as the API invites it to.
 	WrapCtx bool `json:"wrap_ctx,omitempty"`
+	// Relayed: the application messages of the peer carry the Origin-Host of an end host behind it
+	// (the peer is a relay or proxy), not the Origin-Host of its CER / CEA.
+	Relayed bool `json:"relayed,omitempty"`
+}
+
+func (c Case) appIdentity() []*refcodec.Node {
+	if c.Relayed {
+		return []*refcodec.Node{str(cOriginHost, "end-host.behind.the.peer"), str(cOriginRealm, "elsewhere.example")}
+	}
+	return identity()
 }
 
 // Server side: CER = acceptable; CER-app4 = acceptable, but the header carries
@@ -162,21 +172,21 @@ func (c Case) wire(cerH refcodec.Header) (msgs [][]byte, hbh []uint32, cerOK []b
 		case "DWR":
 			b = message(flagRequest, cmdDW, 0, h, e, identity()...)
 		case "RAR":
-			b = message(flagRequest, cmdRA, 0, h, e, append([]*refcodec.Node{session}, append(identity(),
+			b = message(flagRequest, cmdRA, 0, h, e, append([]*refcodec.Node{session}, append(c.appIdentity(),
 				str(cDestRealm, ownRealm), str(cDestHost, ownHost), u32(cAuthAppID, 4), u32(cReAuthReqType, 0))...)...)
 		case "CCR":
-			b = message(flagRequest, cmdCC, 4, h, e, append([]*refcodec.Node{session}, append(identity(),
+			b = message(flagRequest, cmdCC, 4, h, e, append([]*refcodec.Node{session}, append(c.appIdentity(),
 				str(cDestRealm, ownRealm), u32(cAuthAppID, 4), u32(cCCRequestType, 1), u32(cCCRequestNum, 0))...)...)
 		case "CCA":
-			b = message(0, cmdCC, 4, h, e, append([]*refcodec.Node{session, u32(cResultCode, 2001)}, append(identity(),
+			b = message(0, cmdCC, 4, h, e, append([]*refcodec.Node{session, u32(cResultCode, 2001)}, append(c.appIdentity(),
 				u32(cAuthAppID, 4), u32(cCCRequestType, 1), u32(cCCRequestNum, 0))...)...)
 		case "STR":
-			b = message(flagRequest, cmdST, 0, h, e, append([]*refcodec.Node{session}, append(identity(),
+			b = message(flagRequest, cmdST, 0, h, e, append([]*refcodec.Node{session}, append(c.appIdentity(),
 				str(cDestRealm, ownRealm), u32(cAuthAppID, 4), u32(cTermCause, 1))...)...)
 		case "DWA":
 			b = message(0, cmdDW, 0, h, e, append([]*refcodec.Node{u32(cResultCode, 2001)}, identity()...)...)
 		case "ASA":
-			b = message(0, cmdAS, 0, h, e, append([]*refcodec.Node{session, u32(cResultCode, 2001)}, identity()...)...)
+			b = message(0, cmdAS, 0, h, e, append([]*refcodec.Node{session, u32(cResultCode, 2001)}, c.appIdentity()...)...)
 		}
 		if isCER(s) {
 			lastCER, lastHbH, lastOK = b, h, ok
@@ -657,6 +667,7 @@ func variants(role string, hist []string, idx *uint64, yield func(Case) bool) bo
 				c.Frag = "every:" + strconv.Itoa(everyN[h%4])
 			}
 			c.WrapCtx = (h>>12)%3 == 0
+			c.Relayed = (h>>16)%3 == 0
 			if role == "server" {
 				c.Listener = (h>>8)%2 == 0
 			} else {
@@ -747,6 +758,7 @@ func genServer(t *rapid.T) Case {
 	}
 	genFrag(t, &c)
 	c.WrapCtx = rapid.IntRange(0, 2).Draw(t, "wrap-ctx") == 0
+	c.Relayed = rapid.IntRange(0, 2).Draw(t, "relayed") == 0
 	return c
 }
 
@@ -761,6 +773,7 @@ func genClient(t *rapid.T) Case {
 	c.Hist = append(c.Hist[:at], append([]string{cea}, c.Hist[at:]...)...)
 	genFrag(t, &c)
 	c.WrapCtx = rapid.IntRange(0, 2).Draw(t, "wrap-ctx") == 0
+	c.Relayed = rapid.IntRange(0, 2).Draw(t, "relayed") == 0
 	return c
 }
 
@@ -777,6 +790,9 @@ func classify(c Case) (bool, []string) {
 	}
 	if c.WrapCtx {
 		cl = append(cl, "handlers-store-values-in-the-connection-context")
+	}
+	if c.Relayed {
+		cl = append(cl, "application-messages-of-an-end-host-behind-the-peer")
 	}
 	if len(c.Hist) > 4 {
 		cl = append(cl, "len>4")
